@@ -283,14 +283,49 @@ def phase (o : Opt) (cache hasInit : Bool) (attempts : Nat) (cc : Conn) (kind : 
   let out := answerAll (logCall w { conn := cc, kind := kind, items := items }) cc.addr (es.map (·.2))
   (resultFn o cache hasInit attempts cc es out.1 a, out.2)
 
-/-- one `doretry`: the `commands` sub-batch, then the `cAskings` sub-batch -/
-def doRetry (o : Opt) (cache hasInit : Bool) (attempts : Nat) (cc : Conn) (re : Retry) (a : Acc) (w : World) : Acc × World :=
+/-- the sending part of one `doretry`: the `commands` sub-batch, then the `cAskings` sub-batch -/
+def doRetryCore (o : Opt) (cache hasInit : Bool) (attempts : Nat) (cc : Conn) (re : Retry) (a : Acc) (w : World) : Acc × World :=
   let s1 : Acc × World :=
     if re.cmds ≠ [] then phase o cache hasInit attempts cc (callKind cache) (re.cmds.map fun e => Item.cmd e.2.id) re.cmds a w
     else (a, w)
   if re.asks ≠ [] then
     phase o cache hasInit attempts cc .multi (if cache then askingCacheItems re.asks else askingItems false re.asks) re.asks s1.1 s1.2
   else s1
+
+/-- `resp.NonRedisError() == nil`: the reply came from the server (value, redis error, nil) — the command was
+    written and answered. A transport or context error says nothing of the kind: the command may still sit,
+    unwritten, in the connection's queue, which holds the very slice `re.commands`. -/
+def isRedisReply : Reply → Bool
+  | .xerr _ => false
+  | .cerr _ => false
+  | _ => true
+
+/-- the replies the node gives to one sub-batch call (what `phase` scatters) -/
+def phaseReplies (cc : Conn) (kind : CallKind) (items : List Item) (es : List Entry) (w : World) : List Reply :=
+  (answerAll (logCall w { conn := cc, kind := kind, items := items }) cc.addr (es.map (·.2))).1
+
+/-- the world after the `commands` call of an entry -/
+def afterCmds (cache : Bool) (cc : Conn) (re : Retry) (w : World) : World :=
+  if re.cmds ≠ [] then
+    (answerAll (logCall w { conn := cc, kind := callKind cache, items := re.cmds.map fun e => Item.cmd e.2.id }) cc.addr (re.cmds.map (·.2))).2
+  else w
+
+/-- `clean` of `doretry`: `doresultfn` and-s `resp.NonRedisError() == nil` over every reply of both calls -/
+def retryClean (cache : Bool) (cc : Conn) (re : Retry) (w : World) : Bool :=
+  (decide (re.cmds = []) ||
+    (phaseReplies cc (callKind cache) (re.cmds.map fun e => Item.cmd e.2.id) re.cmds w).all isRedisReply) &&
+  (decide (re.asks = []) ||
+    (phaseReplies cc .multi (if cache then askingCacheItems re.asks else askingItems false re.asks) re.asks
+      (afterCmds cache cc re w)).all isRedisReply)
+
+def recycle (w : World) (cc : Conn) (re : Retry) : World :=
+  { w with recycled := w.recycled ++ [(cc, (re.cmds ++ re.asks).map (·.2.id))] }
+
+/-- one `doretry`: send both lists, then `if clean { retryp.Put(re) }` — the per-connection batch goes back to
+    the pool (its command slice is cleared) only when no command of it can still be waiting to be written -/
+def doRetry (o : Opt) (cache hasInit : Bool) (attempts : Nat) (cc : Conn) (re : Retry) (a : Acc) (w : World) : Acc × World :=
+  let s := doRetryCore o cache hasInit attempts cc re a w
+  if retryClean cache cc re w then (s.1, recycle s.2 cc re) else s
 
 def runRound (o : Opt) (cache hasInit : Bool) (attempts : Nat) : Pending → Acc → World → Acc × World
   | [], a, w => (a, w)
@@ -351,6 +386,9 @@ structure DS where
   /-- single-flight episode: automaton state and who leads the current flight (`some none` = DelayDo's goroutine) -/
   sf : SF.S := {}
   sfLeader : Option (Option Nat) := none
+  /-- an abandoned batch (some command answered with the caller's context error, possibly still unwritten on the
+      connection) whose per-connection `retry` went back to the pool nevertheless -/
+  heldBad : Bool := false
 
 def ro0 : Nat → Nat → Nat := fun _ _ => 0
 
@@ -405,6 +443,7 @@ def parseInj (w : String) : Option (Bytes × Nat × Reply) :=
           | "load" => some (.rerr (b "LOADING wait"))
           | "down" => some (.rerr (b "CLUSTERDOWN wait"))
           | "xerr" => some (.xerr (b "boom"))
+          | "ctx" => some (.cerr (b "context canceled"))
           | "err" => some (.rerr (b "ERR boom"))
           | "nil" => some .nilr
           | "OK" => some (.val kOK)
@@ -423,6 +462,7 @@ def showReply : Reply → String
   | .rerr t => "e:" ++ Hex.encode (errText t)
   | .nilr => "n"
   | .xerr s => "x:" ++ Hex.encode s
+  | .cerr s => "x:" ++ Hex.encode s
 
 def showItem : Item → String
   | .cmd i => toString i
@@ -549,15 +589,18 @@ def step (d : DS) (ws0 : List String) : DS × String :=
         | _ => (d, "panic")
       | _, _ => (d, "bad-op")
     | _, _ => (d, "bad-op")
-  | "multi" :: rest | "mcache" :: rest =>
-    let cache := ws.head? == some "mcache"
+  | "multi" :: rest | "mcache" :: rest | "multix" :: rest | "mcachex" :: rest =>
+    -- `multix` / `mcachex`: the same call with a context that is already done (its effect is in the `ctx` replies)
+    let cache := ws.head? == some "mcache" || ws.head? == some "mcachex"
     let (front, inj) := splitSemi rest
     match front.mapM parseCmd, inj.mapM parseInj with
     | some cmds, some inj =>
       let s0 := withScript d inj
       match doMulti d.o d.topo ro0 cache cmds s0 with
       | .ok rs s =>
-        ({ d with st := { s with w := { script := [] } } },
+        let unwritten : List (Nat × Bytes) := s.w.replies.filterMap fun (i, a, r) => match r with | .cerr _ => some (i, a) | _ => none
+        let bad := s.w.recycled.any fun (cc, ids) => unwritten.any fun (i, a) => a = cc.addr && ids.contains i
+        ({ d with st := { s with w := { script := [] } }, heldBad := d.heldBad || bad },
          (if rs.isEmpty then "none" else " ".intercalate (rs.map fun r => match r with | some r => showReply r | none => "unset"))
            ++ " | " ++ showLog s.w.log)
       | .panic => (d, "panic")
@@ -572,6 +615,8 @@ def step (d : DS) (ws0 : List String) : DS × String :=
       | .panic => (d, "panic")
     | none => (d, "bad-op")
   | "!trace" :: rest => (d, Spec.Cluster.Wire.judgeLine rest)
+  | ["consume"] => (d, if d.heldBad then "changed" else "intact")
+  | ["!consume"] => (d, Spec.Cluster.Trace.consumeSpec)
   | ["!sticky", prev, fresh, pf, tg, nf] => (d, Spec.Cluster.Trace.stickyVerdict prev (fresh == "1") pf tg nf)
   | ["sf-enter", c] =>
     match c.toNat? with
